@@ -86,6 +86,25 @@ STMT_FAULTS = ('deadlock-keep', 'deadlock-rollback', 'dupkey', 'connlost',
 COMMIT_FAULTS = ('commit-fail', 'crash-before', 'crash-after')
 
 
+# functions the properties' anchors name as the home of a retry mechanism;
+# a statement is labelled with the innermost of them on the Python stack
+RETRY_HOMES = ('_set_allocations', '_set_aggregates', '_trait_sync',
+               '_resource_classes_sync')
+
+
+def stack_label():
+    import sys
+    f = sys._getframe(2)
+    n = 0
+    while f is not None and n < 120:
+        name = f.f_code.co_name
+        if name in RETRY_HOMES:
+            return name
+        f = f.f_back
+        n += 1
+    return ''
+
+
 class Task(object):
     """One in-flight request."""
 
@@ -106,7 +125,9 @@ class Task(object):
         self.crashed_at = None
         self.fired = []      # faults that actually fired
         self.fired_ctx = []  # statements of the open transaction, per fault
+        self.fired_label = []
         self.cur_txn = []
+        self.stmt_labels = []   # per ordinal (dry runs only)
         self.pending_winners = []
         self.data_commits = 0
 
@@ -293,6 +314,7 @@ class Sim(object):
         # where it struck, judged from the statements of the transaction so
         # far (needed for second faults, whose ordinals no dry run knows)
         task.fired_ctx.append(list(task.cur_txn))
+        task.fired_label.append(stack_label())
 
     def _flush_winners(self, task):
         if not task.pending_winners:
@@ -338,6 +360,7 @@ class Sim(object):
         task.cur_txn.append((verb, table))
         if self.trace_sql:
             task.ops.append(('S', verb, table))
+            task.stmt_labels.append(stack_label())
         kind = self.faults.get((task.idx, k))
         if kind is None and self.match_faults:
             for mf in self.match_faults:
@@ -408,6 +431,7 @@ class Sim(object):
         task._commit_ord = k
         if self.trace_sql:
             task.ops.append(('C', '', ''))
+            task.stmt_labels.append('')
         kind = self.faults.get((task.idx, k))
         if kind is None:
             return
